@@ -2002,6 +2002,10 @@ class Cluster(object):
         if self.is_shutdown:
             return
 
+        if self.metadata.get_host(host.endpoint) is not host:
+            # already removed from the cluster: nothing to mark down, nobody to notify
+            return
+
         with host.lock:
             was_up = host.is_up
 
